@@ -181,9 +181,15 @@ Definition probe_ok (s : sst) (av bv : list Z) (p : probe) : bool :=
               bool_decide (tp_sg x = gets_spec IB (sp_view s t) bv))
            (sp_open_ids s) (p_txs p).
 
+Definition inrows (r : row) (l : list row) : bool := existsb (fun x => bool_decide (x = r)) l.
 (* (a) one indexed query against its full-scan twin and against the specification *)
 Definition rq_is (r : rq) (expect : list row) : bool :=
   N.eqb (rq_e r) 0 && bool_decide (rq_rows r = expect) && Nat.eqb (rq_cnt r) (length expect) &&
+  N.eqb (rq_ce r) 0 && Bool.eqb (rq_x r) (negb (Nat.eqb (length expect) 0)) && N.eqb (rq_xe r) 0.
+(* the same up to multiplicity: used when the caller itself listed a key twice in MatchKeys *)
+Definition rq_is_set (r : rq) (expect : list row) : bool :=
+  N.eqb (rq_e r) 0 && forallb (fun x => inrows x expect) (rq_rows r) &&
+  forallb (fun x => inrows x (rq_rows r)) expect &&
   N.eqb (rq_ce r) 0 && Bool.eqb (rq_x r) (negb (Nat.eqb (length expect) 0)) && N.eqb (rq_xe r) 0.
 
 Fixpoint sorted_dir (desc : bool) (l : list row) : bool :=
@@ -191,7 +197,6 @@ Fixpoint sorted_dir (desc : bool) (l : list row) : bool :=
   | a :: ((b :: _) as t) => (if desc then Z.leb (rb b) (rb a) else Z.leb (rb a) (rb b)) && sorted_dir desc t
   | _ => true
   end.
-Definition inrows (r : row) (l : list row) : bool := existsb (fun x => bool_decide (x = r)) l.
 (* ordered pagination: the page is an ordered, duplicate-free, prefix-closed selection of the
    scan's rows of the right length (order inside equal values is free) *)
 Definition page_ok (desc : bool) (limit : nat) (filtered : bool) (page cand : list row) : bool :=
@@ -217,7 +222,7 @@ Definition query_ok (s : sst) (o : op) (i : iout) : bool :=
         match io_qi i, io_qs i with
         | Some qi, Some qs =>
             let expect := sp_select s t (holds f) in
-            rq_is qi expect && rq_is qs expect
+            (if nodup_keys f then rq_is qi expect else rq_is_set qi expect) && rq_is qs expect
         | _, _ => false
         end
       else true
